@@ -692,7 +692,14 @@ func handleReferences[P topLevelEntryProto, S topLevelEntryStruct](r *RIB, niRIB
 
 func (r *RIB) handleNHGReferences(niRIB *RIBHolder, original *aft.Afts_NextHopGroup, new *aftpb.Afts_NextHopGroup) {
 	// Increment all the new references.
+	counted := map[uint64]bool{}
 	for _, nh := range new.NextHop {
+		// A next-hop that is listed more than once is stored (and later released)
+		// as a single member of the group, so it is counted once.
+		if counted[nh.GetIndex()] {
+			continue
+		}
+		counted[nh.GetIndex()] = true
 		niRIB.incNHRefCount(nh.GetIndex())
 	}
 
